@@ -336,6 +336,9 @@ def op_instances(kind, universe, rng=None, ref=None):
                 if kind in ("CRG", "SCRG"):
                     ops.append(("add_bond", a, b, {"reaction": "@FORMED"}))
                     ops.append(("add_bond", a, b, {"reaction": "formed"}))  # wrong type
+                    if (a + b) % 2 == 0:
+                        ops.append(("add_bond", a, b, {"reaction": None}))  # wrong type, falsy
+                        ops.append(("add_bond", a, b, {"reaction": 0}))  # wrong type, falsy
                     ops.append(("add_formed_bond", a, b, {}))
                     ops.append(("add_broken_bond", b, a, {"w": 1}))
                     ops.append(("add_fleeting_bond", a, b, {}))
